@@ -5,6 +5,7 @@ import io
 import itertools
 import random
 import sys
+import types
 
 import hv.symx.core  # noqa: F401
 import hy
@@ -194,6 +195,51 @@ def incremental(chk):
             sys.excepthook = hook
     chk.ob("rtc/line-by-line input: more input is requested exactly while the accumulated text is incomplete", bad is None, "rtc", "bounded",
            detail=str(bad))
+    # "then evaluates it and prints each non-None result as the same forms evaluated in order would give": every completed input is
+    # also evaluated as a script chunk (hy.eval over the lazily read forms, so compile-time effects of a form - defmacro, defreader,
+    # require - are in force when the next form is read) in a namespace of its own; standard output must agree chunk by chunk
+    progs_out = progs + ["(defreader ver 1) [#ver #ver]\n", "(defreader ver 1)\n#ver\n(defreader ver 2) [#ver\n  #ver]\n#ver\n",
+                         "(defmacro m [] 5) (m)\n(defmacro m [] 6) [(m)\n (m)]\n", "(print 1) (print 2) 3\n", "(setv a 1) (setv b\n 2) [a b]\n",
+                         "(defreader up (.upper (str (.parse-one-form &reader)))) #up abc\n", "(defn f [] 1) (f)\n(f) (f)\n",
+                         "(defmacro twice [x] `(do ~x ~x)) (twice (print \"t\"))\n"]
+    bad_out = None
+    n_chunks = 0
+    for prog in progs_out:
+        r = new_repl()
+        mod = types.ModuleType("hv_c40_script")
+        from hy.reader.hy_reader import HyReader
+        rdr = HyReader()          # one reader for the whole script, as for a file
+        acc = ""
+        hook = sys.excepthook
+        sys.excepthook = lambda *a: None
+        try:
+            for line in prog.splitlines():
+                acc = acc + ("\n" if acc else "") + line
+                buf = io.StringIO()
+                with contextlib.redirect_stdout(buf), contextlib.redirect_stderr(io.StringIO()):
+                    more = r.runsource(acc)
+                if more:
+                    continue
+                n_chunks += 1
+                want = io.StringIO()
+                with contextlib.redirect_stdout(want), contextlib.redirect_stderr(io.StringIO()):
+                    try:
+                        v = hy.eval(hy.read_many(acc, reader=rdr), mod.__dict__, module=mod)
+                        if v is not None:
+                            print(hy.repr(v))
+                    except BaseException:  # noqa: BLE001
+                        pass
+                chk.case(("out", prog, line))
+                if buf.getvalue() != want.getvalue() and bad_out is None:
+                    bad_out = (acc, buf.getvalue(), want.getvalue())
+                acc = ""
+        finally:
+            sys.excepthook = hook
+    chk.ob("rtc/line-by-line input: each completed input prints what evaluating its forms in order as a script prints (compile-time effects "
+           "of a form are in force when the next form is read)", bad_out is None and n_chunks >= 20, "rtc", "bounded",
+           detail=f"{n_chunks} inputs" if bad_out is None else f"input {bad_out[0]!r}: REPL printed {bad_out[1]!r}, the script prints {bad_out[2]!r}",
+           witness={"input": bad_out[0]} if bad_out else None,
+           replay={"confirmed": True, "input": bad_out[0], "observed": bad_out[1], "expected": bad_out[2]} if bad_out else None)
     # the same against an independent definition of `incomplete`: the nesting recogniser written from docs/syntax.rst
     # (hv/props/_c19_scan.py, no hy import).  Generated well-formed programs are cut where a user could press Enter; the text so far
     # is pushed to a real REPL, which must ask for more input exactly when the recogniser says a construct is still open; the command
